@@ -179,11 +179,18 @@ def make_frame(mods, r, kind, seed, a=1.0, b=1.0):
 
 
 def fit(mods, df, uc):
-  m = mods['iroas'].TBRiROAS(use_cooldown=uc)
+  switched = (len(df) + int(abs(float(df['cost'].sum())))) % 3 == 0
+  m = mods['iroas'].TBRiROAS(use_cooldown=(not uc) if switched else uc)
   variant = base.semantic_variant(df)
   base.refit_prelude(m, df, iroas=True, variant=variant)
   fdf, kw, _ = base.relabel(df, variant)
   m.fit(fdf, **kw)
+  if switched:
+    # the object was created (and fitted) with the other cooldown setting; the caller then switched it on the
+    # object and on both sub-models.  The setting is read when a report is asked for.
+    m.use_cooldown = uc
+    m.tbr_response.use_cooldown = uc
+    m.tbr_cost.use_cooldown = uc
   return m
 
 
